@@ -297,7 +297,53 @@ fn zoo_case(t: &mut Tape, rec: &mut Rec) -> CaseResult {
                     rec.check(pbody.recipient == sub.1, "C13:pkesk-v3-key-id-differs", || format!("{} vs {}", hex::encode(&pbody.recipient), hex::encode(&sub.1)));
                 }
             }
-            rec.describe(|| format!("{kind:?}: PKESK v3 key id / v6 versioned fingerprint of the encryption subkey"));
+            // several recipients, named and anonymous in a drawn order: every PKESK carries the
+            // identity of *its* recipient (or the wildcard), in the order the recipients were added
+            let pool: Vec<crate::zoo::Kind> = zoo::CHEAP_RECIPIENTS.iter().copied().collect();
+            let n_rcpt = t.range(2, 4);
+            let mut rcpts: Vec<(crate::zoo::Kind, bool)> = vec![(kind, t.bool())];
+            // (bounded: an exhausted tape keeps drawing the same element)
+            let start = t.below(pool.len());
+            for j in 0..pool.len() {
+                if rcpts.len() >= n_rcpt {
+                    break;
+                }
+                let k = pool[(start + j) % pool.len()];
+                if !rcpts.iter().any(|(x, _)| *x == k) {
+                    rcpts.push((k, t.bool()));
+                }
+            }
+            // put the original recipient at a drawn position
+            let pos = t.below(rcpts.len());
+            rcpts.swap(0, pos);
+            for v2 in [false, true] {
+                let mut cfg = MsgConfig::plain();
+                cfg.enc = if v2 { Enc::V2(pgp::crypto::sym::SymmetricKeyAlgorithm::AES128, pgp::crypto::aead::AeadAlgorithm::Ocb, 0) } else { Enc::V1(pgp::crypto::sym::SymmetricKeyAlgorithm::AES128) };
+                cfg.recipients = rcpts.clone();
+                cfg.seed = t.seed32();
+                let bytes = cfg.build(b"hello").map_err(|e| f("C13:builder-error", e.to_string()))?;
+                let raws = wire::split_packets(&bytes).unwrap();
+                let pkesks: Vec<_> = raws.iter().filter(|p| p.tag == 1).collect();
+                if pkesks.len() != rcpts.len() {
+                    rec.soft_fail("C13:pkesk-count-differs", format!("{} recipients, {} PKESK packets", rcpts.len(), pkesks.len()));
+                    continue;
+                }
+                for (pk, (rk, anon)) in pkesks.iter().zip(rcpts.iter()) {
+                    let zr = zoo::get(*rk);
+                    let sub_bytes = zr.public.public_subkeys[0].key.to_bytes().map_err(|e| f("C13:serialize", e.to_string()))?;
+                    let sub = ref_ids(&sub_bytes, false).ok_or_else(|| f("C13:reference-key-parse", "recipient subkey"))?;
+                    let pbody = parse_pkesk(&pk.body).ok_or_else(|| f("C13:pkesk-does-not-decode", ""))?;
+                    let want: Vec<u8> = match (v2, *anon) {
+                        (true, false) => [&[sub.2][..], &sub.0[..]].concat(),
+                        (true, true) => vec![],
+                        (false, false) => sub.1.clone(),
+                        (false, true) => vec![0u8; 8],
+                    };
+                    rec.check(pbody.recipient == want, if *anon { "C13:anonymous-recipient-pkesk-not-wildcard" } else { "C13:pkesk-recipient-field-differs-in-multi-recipient-message" }, || format!("recipients {rcpts:?}, PKESK v{} for {rk:?} (anonymous: {anon}): field {} expected {}", if v2 { 6 } else { 3 }, hex::encode(&pbody.recipient), hex::encode(&want)));
+                }
+            }
+            rec.label(format!("pkesk:recipients={}", rcpts.len()));
+            rec.describe(|| format!("{kind:?}: PKESK v3 key id / v6 versioned fingerprint of the encryption subkey, alone and among {rcpts:?}"));
         }
     }
     Ok(())
